@@ -2774,6 +2774,79 @@ static void build_expr(WorkList *list, ASTNode *expr, Environment *env) {
 }
 
 /* ============================================================================
+ * HELPER: Does an expression mention a variable?
+ * ============================================================================ */
+
+static bool expr_mentions_identifier(ASTNode *expr, const char *name) {
+    if (!expr || !name) return false;
+
+    switch (expr->type) {
+        case AST_IDENTIFIER:
+            return strcmp(expr->as.identifier, name) == 0;
+        case AST_PREFIX_OP:
+            for (int i = 0; i < expr->as.prefix_op.arg_count; i++) {
+                if (expr_mentions_identifier(expr->as.prefix_op.args[i], name)) return true;
+            }
+            return false;
+        case AST_CALL:
+            /* the callee may be a variable of function type */
+            if (expr->as.call.name && strcmp(expr->as.call.name, name) == 0) return true;
+            if (expr_mentions_identifier(expr->as.call.func_expr, name)) return true;
+            for (int i = 0; i < expr->as.call.arg_count; i++) {
+                if (expr_mentions_identifier(expr->as.call.args[i], name)) return true;
+            }
+            return false;
+        case AST_MODULE_QUALIFIED_CALL:
+            for (int i = 0; i < expr->as.module_qualified_call.arg_count; i++) {
+                if (expr_mentions_identifier(expr->as.module_qualified_call.args[i], name)) return true;
+            }
+            return false;
+        case AST_ARRAY_LITERAL:
+            for (int i = 0; i < expr->as.array_literal.element_count; i++) {
+                if (expr_mentions_identifier(expr->as.array_literal.elements[i], name)) return true;
+            }
+            return false;
+        case AST_TUPLE_LITERAL:
+            for (int i = 0; i < expr->as.tuple_literal.element_count; i++) {
+                if (expr_mentions_identifier(expr->as.tuple_literal.elements[i], name)) return true;
+            }
+            return false;
+        case AST_STRUCT_LITERAL:
+            for (int i = 0; i < expr->as.struct_literal.field_count; i++) {
+                if (expr_mentions_identifier(expr->as.struct_literal.field_values[i], name)) return true;
+            }
+            return false;
+        case AST_UNION_CONSTRUCT:
+            for (int i = 0; i < expr->as.union_construct.field_count; i++) {
+                if (expr_mentions_identifier(expr->as.union_construct.field_values[i], name)) return true;
+            }
+            return false;
+        case AST_FIELD_ACCESS:
+            return expr_mentions_identifier(expr->as.field_access.object, name);
+        case AST_TUPLE_INDEX:
+            return expr_mentions_identifier(expr->as.tuple_index.tuple, name);
+        case AST_IF:
+            return expr_mentions_identifier(expr->as.if_stmt.condition, name) ||
+                   expr_mentions_identifier(expr->as.if_stmt.then_branch, name) ||
+                   expr_mentions_identifier(expr->as.if_stmt.else_branch, name);
+        case AST_BLOCK:
+            /* a `{ expr }` branch of an if expression */
+            for (int i = 0; i < expr->as.block.count; i++) {
+                if (expr_mentions_identifier(expr->as.block.statements[i], name)) return true;
+            }
+            return false;
+        case AST_COND:
+            for (int i = 0; i < expr->as.cond_expr.clause_count; i++) {
+                if (expr_mentions_identifier(expr->as.cond_expr.conditions[i], name) ||
+                    expr_mentions_identifier(expr->as.cond_expr.values[i], name)) return true;
+            }
+            return expr_mentions_identifier(expr->as.cond_expr.else_value, name);
+        default:
+            return false;
+    }
+}
+
+/* ============================================================================
  * PASS 1: BUILD WORK ITEMS (Statement Transpiler)
  * ============================================================================ */
 
@@ -2957,6 +3030,32 @@ static void build_stmt(WorkList *list, ScopeStack *scopes, ASTNode *stmt, int in
             break;
             
         case AST_LET: {
+            /* `let x: T = (f x)` where x names an outer variable: a C declarator is in scope in its own
+             * initialiser (`T x = f(x);` reads the new, uninitialised x), so the value is computed into a
+             * temporary first.  (A generic union keeps its literal: the let supplies its C type.) */
+            ASTNode *let_value = stmt->as.let.value;
+            ASTNode let_temp;
+            char let_temp_name[48];
+            bool let_uses_temp = expr_mentions_identifier(let_value, stmt->as.let.name) &&
+                                 !(stmt->as.let.var_type == TYPE_UNION && stmt->as.let.type_info &&
+                                   stmt->as.let.type_info->type_param_count > 0);
+            if (let_uses_temp) {
+                static int let_temp_counter = 0;
+                snprintf(let_temp_name, sizeof(let_temp_name), "_nl_let_value_%d", let_temp_counter++);
+                emit_indent_item(list, indent);
+                emit_formatted(list, "__auto_type %s = ", let_temp_name);
+                build_expr(list, let_value, env);
+                emit_literal(list, ";\n");
+                env_define_var_with_type_info(env, let_temp_name, stmt->as.let.var_type,
+                                             stmt->as.let.element_type, NULL, false, create_void());
+                memset(&let_temp, 0, sizeof(let_temp));
+                let_temp.type = AST_IDENTIFIER;
+                let_temp.line = let_value->line;
+                let_temp.column = let_value->column;
+                let_temp.as.identifier = let_temp_name;
+                stmt->as.let.value = &let_temp;
+            }
+
             emit_indent_item(list, indent);
             
             /* Handle tuple types - use __auto_type to infer from RHS */
@@ -3165,6 +3264,8 @@ static void build_stmt(WorkList *list, ScopeStack *scopes, ASTNode *stmt, int in
                 emit_literal(list, ";\n");
             }
             
+            stmt->as.let.value = let_value;
+
             /* Register in environment */
             env_define_var_with_type_info(env, stmt->as.let.name, stmt->as.let.var_type,
                                          stmt->as.let.element_type, NULL, stmt->as.let.is_mut, create_void());
